@@ -17,7 +17,7 @@ RULE = ('generated mapping nodes whose attribute is a sequence of mappings / a m
         'strict; each transform and each transform pair runs on the real yatiml.Node and on the '
         'Lean model (compared) and against the documented shape / inverse / no-op oracle on plain '
         'data.  Non-trivial = the transform changes the node or raises.'
-        'Values may carry application tags, items and nodes non-scalar keys; every collection'
+        ' Values may carry application tags, items and nodes non-scalar keys; every collection'
         ' node a transform creates must be a plain !!map / !!seq.')
 ASSUMPTIONS = []
 
